@@ -21,6 +21,9 @@
 (*   newc, newk  COMMENT ids / all other token ids of the new code            *)
 (*   stmt, kind, field, form, deleting   what is edited and how               *)
 (*   tv          the trivia option value, syntactically decomposed            *)
+(*   docstr      the docstr option value ("True" | "False" | "strict");        *)
+(*   ds1, ds2    STRING tokens of expression statements in / not in a          *)
+(*               docstring position (pre stream)                               *)
 (*   elifPre, elifPost, soleGen, dependent   grammar-forced situations       *)
 (*                                                                            *)
 (* Three regions of the pre stream (DESIGN 4-C04):                            *)
@@ -35,7 +38,7 @@
 EXTENDS Text
 
 CONSTANTS KTab,   \* token table: KTab[id] = [t |-> type name, s |-> text]
-          LTab    \* line table:  LTab[id] = [b |-> the line is blank]
+          LTab    \* line table:  LTab[id] = [b |-> the line is empty space (blank, or a lone `\`), c |-> a lone `\`]
 
 Cl(name, ok) == [c |-> name, ok |-> ok]
 
@@ -44,6 +47,7 @@ Str(id) == KTab[id].s
 IsComment(id) == Typ(id) = "COMMENT"
 IsTrivia(id)  == Typ(id) \in {"COMMENT", "NL", "NEWLINE", "INDENT"}
 Blank(l)      == LTab[l].b
+LoneCont(l)   == LTab[l].c
 
 N(c) == Len(c.T)
 NumE(c) == Len(c.E)
@@ -118,10 +122,44 @@ Erasable(c, id) ==
   \/ (~c.stmt /\ Typ(id) = "OP" /\ Str(id) \in SeqDelims(c))
 
 Erased(c, S, idx, own) == At(S, SelectSeq(idx, LAMBDA i : ~(i \in own /\ Erasable(c, S[i]))))
+(* EncloseMultiline: an undelimited expression container (`a or b`, `x, y`,   *)
+(* `a < b` at statement level) that receives code spanning several lines is   *)
+(* put in parentheses as a whole - the container's own grouping parentheses   *)
+InPost(c, lo, hi) == Erased(c, c.U, Iota(lo, hi), c.uown)
 InOk(c, w) ==
-  Frames(Erased(c, c.T, Iota(c.cLo, w.lo - 1), c.own),
-         Erased(c, c.T, Iota(w.hi + 1, c.cHi), c.own),
-         Erased(c, c.U, Iota(c.cLo, PostHi(c)), c.uown))
+  LET l == Erased(c, c.T, Iota(c.cLo, w.lo - 1), c.own)
+      r == Erased(c, c.T, Iota(w.hi + 1, c.cHi), c.own)
+  IN \/ Frames(l, r, InPost(c, c.cLo, PostHi(c)))
+     \/ /\ ~c.stmt /\ c.cLo < PostHi(c) /\ Str(c.U[c.cLo]) = "(" /\ Str(c.U[PostHi(c)]) = ")"
+        /\ Frames(l, r, InPost(c, c.cLo + 1, PostHi(c) - 1))
+     \/ /\ ~c.stmt /\ c.cLo + 1 < PostHi(c) /\ Str(c.U[c.cLo]) = "(" /\ IsComment(c.U[PostHi(c)])   \* (a line comment
+        /\ Str(c.U[PostHi(c) - 1]) = ")"                                                      \* trails the container)
+        /\ Frames(l, r, InPost(c, c.cLo + 1, PostHi(c) - 2) \o <<c.U[PostHi(c)]>>)
+
+(* ElifChange re-indents and re-heads the If that is / becomes the `elif`: the *)
+(* elements of the orelse that the request does not remove must come through  *)
+(* as they are, token for token - only the text of INDENT tokens, `elif` <->   *)
+(* `if` at the head of the element, and the text of multi-line strings that    *)
+(* the docstr option declares indentable may differ:                          *)
+(*   docstr = True     every expression-statement string                      *)
+(*   docstr = 'strict' those in a docstring position (first statement of a    *)
+(*                     module / def / class body)                             *)
+(*   docstr = False    none                                                   *)
+Indentable(c, i) == /\ Typ(c.T[i]) = "STRING"
+                    /\ \/ (i \in c.ds1 /\ c.docstr \in {"True", "strict"})
+                       \/ (i \in c.ds2 /\ c.docstr = "True")
+TokSame(c, first, i, j) ==
+  \/ c.T[i] = c.U[j]
+  \/ (Typ(c.T[i]) = "INDENT" /\ Typ(c.U[j]) = "INDENT")
+  \/ (i = first /\ Str(c.T[i]) \in {"if", "elif"} /\ Str(c.U[j]) \in {"if", "elif"})
+  \/ (Indentable(c, i) /\ Typ(c.U[j]) = "STRING")
+MovedOk(c, el) ==
+  LET len == el.hi - el.lo + 1
+      cands == {o \in c.cLo..(PostHi(c) - len + 1) : TokSame(c, el.lo, el.lo, o)}
+  IN \E o \in cands : \A k \in 0..(len - 1) : TokSame(c, el.lo, el.lo + k, o + k)
+ConservedElems(c) == {k \in DOMAIN c.E : ~(HasElem(c) /\ c.ns < k /\ k <= c.nt)}
+MovedApplies(c) == ElifChange(c) /\ c.valid
+AllMovedOk(c) == \A k \in ConservedElems(c) : MovedOk(c, c.E[k])
 
 (* ------------------------------------------------------------------------ *)
 (* the trivia option (documentation: d06_slices "Trivia", FST.options())      *)
@@ -143,8 +181,10 @@ Trail(c) == Mode(TrailPart(c.tv), "line")
 (* which operations take trivia at all: statement-like elements always,       *)
 (* expression-like elements in slice operations (a single element is removed  *)
 (* as a one-element slice; elements of two-node virtual fields are always     *)
-(* slices), not in single-element replacement                                 *)
-UsesTrivia(c) == c.stmt \/ c.form \in {"slice", "del"} \/ (c.form = "one" /\ c.field = "_all")
+(* slices), not in single-element replacement; deleting arguments.vararg /     *)
+(* kwarg is carried out as a one-element slice deletion of arguments._all      *)
+UsesTrivia(c) == \/ c.stmt \/ c.form \in {"slice", "del"} \/ (c.form = "one" /\ c.field = "_all")
+                 \/ (c.kind = "arguments" /\ c.field \in {"vararg", "kwarg"} /\ c.deleting)
 
 (* leading trivia of the thing that starts at token `at`: comment lines above *)
 (* it, within the window                                                      *)
@@ -183,7 +223,6 @@ TrailSel(c, w, at, blk) ==
                             /\ (Trail(c).k = "int" => c.ts[i] - 1 <= Trail(c).n)}
                ELSE {}
   IN lineSel \cup below
-
 (* EmptiedBlock: the last statement of an `else:` / `finally:` block goes, or  *)
 (* the whole `else:` block of an If is replaced by a single If that is written *)
 (* as `elif` - the header goes with it; the leading trivia is then taken at    *)
@@ -298,29 +337,38 @@ TokenClauses(c) ==
            linesOk == LinesOk(c, la, lb)
        IN {Cl("Facts", TRUE), Cl("OutsideTokens.out", OutOk(c))}
           \cup (IF OutOk(c) /\ c.uoOk THEN {Cl("OutsideTokens.in", InOk(c, w))} ELSE {})
+          \cup (IF OutOk(c) /\ MovedApplies(c) THEN {Cl("OutsideTokens.moved", AllMovedOk(c))} ELSE {})
           \cup {Cl("Comments.lost", Lost(c, w) = {}), Cl("Comments.dup", NoDup(c)), Cl("OutsideLines", linesOk)}
           \cup (IF BlankApplies(c) /\ linesOk THEN {Cl("BlankLines", BlankOk(c, w, la, lb, goneLines))} ELSE {})
 
 (* ---- case class (narrow identification of known findings, DESIGN 2.6)      *)
-(* trivia a zero-length slice put would take if the insertion point were an   *)
-(* element: leading trivia of the next element, or - appending - trailing     *)
-(* trivia of the previous one                                                 *)
-InsertNeighbourSel(c) ==
+(* TRAILING trivia a zero-length slice put would take if the insertion point  *)
+(* were the end of an element: appending - the trailing trivia of the         *)
+(* previous element; inserting at the head - what trails the opening          *)
+(* delimiter.  (The leading trivia of the following element is NOT part of    *)
+(* this class: losing it is reported.)                                        *)
+InsertTrailingSel(c) ==
   IF HasElem(c) \/ Whole(c) \/ c.stmt \/ c.form # "slice" THEN {}
   ELSE LET w == W(c)
-           \* inserting at the head of the sequence: the put location starts right after the opening delimiter
            pk == {k \in Kids(c) : w.lo <= c.kids[k].lo /\ c.kids[k].hi <= w.hi}       \* children of an interleaved field
            first == IF c.ns < NumE(c) THEN c.E[c.ns + 1].lo ELSE IF pk = {} THEN w.hi + 1 ELSE SetMin({c.kids[k].lo : k \in pk})
            opens == {i \in w.lo..(first - 1) : i \in c.own /\ Str(c.T[i]) \in {"(", "[", "{"}}
+           \* inserting at the head of the sequence: the put location starts right after the opening delimiter
            head == IF c.ns = 0 /\ opens # {} THEN TrailSel(c, w, SetMax(opens), FALSE) ELSE {}
        IN head \cup
-          (IF c.ns < NumE(c) THEN LeadSel(c, w, c.E[c.ns + 1].lo)
+          (IF c.ns < NumE(c) THEN {}
            ELSE IF c.ns >= 1 THEN TrailSel(c, w, c.E[c.ns].hi, FALSE)
            ELSE IF pk = {} THEN {}
-           ELSE LeadSel(c, w, SetMin({c.kids[k].lo : k \in pk})) \cup TrailSel(c, w, SetMax({c.kids[k].hi : k \in pk}), FALSE))
+           ELSE TrailSel(c, w, SetMax({c.kids[k].hi : k \in pk}), FALSE))
+(* (with repeated comment texts the greedy matching may blame other comments  *)
+(* than the ones that went; the class is therefore decided by asking whether   *)
+(* everything *but* the trailing trivia at the insertion point is conserved)   *)
 LostClass(c) ==
   IF ~FactsOk(c) \/ ~WOk(c) THEN ""
-  ELSE LET lost == Lost(c, W(c)) IN
-       IF lost # {} /\ lost \subseteq InsertNeighbourSel(c) THEN "/lost=insert-neighbour-trivia"
-       ELSE ""
+  ELSE LET w == W(c)
+           its == InsertTrailingSel(c)
+       IN IF Lost(c, w) # {} /\ its # {}
+             /\ LostFrom(c, w, MustIdx(c, AllGone(c, w) \cup its), CommentIdx(c.U), 1, 1) = {}
+          THEN "/lost=insert-trailing-trivia" ELSE ""
+
 =============================================================================
